@@ -148,6 +148,15 @@ Vectors == <<
   <<124, 57, 27, 48, 48, 48, 49, 48, 48, 48, 48, 73, 67, 79, 78, 70, 73, 76, 69, 46, 73, 67, 78, 60, 62>>
 >>
 ASSUME \A i \in 1..Len(Vectors) : RoundTrip(Vectors[i])
+\* ---- the parameter widths of doc/ripscript/154/ripscript.txt ("Arguments:" lines), in table order; text / list commands: the
+\* fixed part only.  RIP_WRITE_ICON res:1 and RIP_READ_SCENE res:8 are raw characters in the code, i.e. part of the text (<<>>).
+DocWidths == <<
+  <<2, 2, 2, 2, 1, 1>>, W2(4), <<>>, <<>>, <<>>, W2(2), <<>>, <<>>, W2(1), <<>>, W2(2), W2(1), W2(2), <<>>, W2(2), W2(4), W2(2), W2(4), W2(4), W2(4),
+  W2(3), W2(6), W2(4), W2(5), W2(6), W2(5), W2(6), W2(9), <<2>>, <<2>>, <<2>>, W2(3), <<2, 4, 2>>, W2(2), W2(9), <<>>,
+  <<2, 2, 2, 2, 2, 1, 1, 5>>, <<>>, W2(5), <<1>>, <<>>, <<2, 2, 2, 2, 1>>, <<2, 2, 2, 1>>, <<>>, <<2, 2, 2, 1, 2>>,
+  W2(3) \o <<4>> \o W2(10) \o <<6>>, <<2, 2, 2, 2, 2, 1, 1>>, <<3, 2>>, <<1, 3>>, W2(6), <<>>, <<2, 4>>, <<1, 1, 2, 4>> >>
+ASSUME Len(DocWidths) = NCmds /\ \A i \in 1..NCmds : Cmds[i].rw = DocWidths[i]                       \* what is printed follows the document
+ASSUME \A i \in 1..NCmds : (Cmds[i].pw # DocWidths[i]) <=> (i = 46)                                  \* (!) what is read: RIP_BUTTON_STYLE res
 ASSUME NCmds = 53 /\ \A i \in 1..NCmds : Look(Cmds[i].lvl, Cmds[i].ch) = i           \* letters are unique per level
 ASSUME B36(2, 1295) = <<90, 90>> /\ B36(2, 0) = <<48, 48>> /\ B36(1, 37) = <<49>> /\ B36(4, 1679615) = <<90, 90, 90, 90>>
 ASSUME Sat36(59652323, 19) = MaxI /\ Sat36(59652323, 18) = MaxI - 1 /\ Sat36(59652324, 0) = MaxI /\ Sat36(MaxI, 35) = MaxI
